@@ -743,7 +743,11 @@ func (x *Exec) callFunc(fr *Frame, st *State, fn *ssa.Function, bind []Value, ar
 	if fn.Blocks == nil || !strings.HasPrefix(name, modPath) && !strings.HasPrefix(name, "("+modPath) && !strings.HasPrefix(name, "(*"+modPath) {
 		x.note("uncontracted external call (results unconstrained, assumed not to panic, heap assumed unchanged)", name)
 	} else {
-		x.note("uncontracted call (results unconstrained, assumed not to panic, heap assumed unchanged)", calleeShort(key))
+		// a repository function without a contract is executed in place: what it does is checked
+		// against the caller's contract rather than assumed harmless
+		x.note("inlined (no contract)", calleeShort(key))
+		x.inline(fr, st, fn, bind, args, k)
+		return
 	}
 	k(st, x.freshResults(st, fn.Signature, fn.Name()))
 }
